@@ -3,12 +3,16 @@
 Only the property text goes in; nothing about /verif's checks."""
 import json, sys
 pid = sys.argv[1]
+# optional: worktree suffix (second-round seeds, e.g. "b") and a description of earlier changes to avoid
+suffix = sys.argv[2] if len(sys.argv) > 2 else ""
+avoid = sys.argv[3] if len(sys.argv) > 3 else ""
 p = None
 for l in open('/verif/properties.jsonl'):
     q = json.loads(l)
     if q['id'] == pid:
         p = q
-wt = f"/tmp/wt-{pid}"
+wt = f"/tmp/wt-{pid}{suffix}"
+avoid_txt = (" Earlier rounds already produced the following kinds of change for this property; choose a DIFFERENT mechanism and a different code site where possible: " + avoid) if avoid else ""
 print(f"""You are helping to evaluate a verification effort by playing the role of a developer who introduces a subtle regression.
 
 Repository: a scratch git worktree of Quantus-Network/qp-zk-circuits (Rust; Plonky2 zero-knowledge circuits for Quantus Wormhole: leaf spend proofs, private/public recursive batch aggregation, proof pool) at {wt}. Work ONLY inside {wt}. Never read, write or cd into /repo or /verif (they are off limits; do not look at them at all). The sandbox has no network: always pass --offline to cargo (or set CARGO_NET_OFFLINE=true). Use at most 4 build jobs (export CARGO_BUILD_JOBS=4) because other work shares this machine. Code guarded by `#[cfg(quantus_network_qp_zk_circuits_verif)]` is test instrumentation that is normally compiled out: leave it alone and do not rely on it.
@@ -21,7 +25,7 @@ The property that should hold for this code base:
   quantified over: {p['quantifier']['text']}
   files the property is anchored in: {', '.join(p['anchors']['files'])}
 
-Your task: make a change to the repository source (not to tests) that BREAKS this property while the code still compiles and the repository's existing test suite still passes. Aim for a realistic regression — the kind of plausible refactor, optimisation, off-by-one, dropped or reordered check, or weakened constraint a maintainer could merge — NOT an obviously sabotaged one. It must need something specific to manifest: an unusual input or witness, a multi-step sequence of operations, a fault at a particular point, or two cooperating sites that each look fine alone. A change that ordinary use (or any existing test) would expose at once is not useful. Keep the change small (one or two sites).
+Your task: make a change to the repository source (not to tests) that BREAKS this property while the code still compiles and the repository's existing test suite still passes. Aim for a realistic regression — the kind of plausible refactor, optimisation, off-by-one, dropped or reordered check, or weakened constraint a maintainer could merge — NOT an obviously sabotaged one. It must need something specific to manifest: an unusual input or witness, a multi-step sequence of operations, a fault at a particular point, or two cooperating sites that each look fine alone. A change that ordinary use (or any existing test) would expose at once is not useful. Keep the change small (one or two sites).{avoid_txt}
 
 The existing suite: /root/.vp/BASELINE.json lists under "stable_pass" the tests that pass on the unchanged tree (the "always_fail" ones fail only because they exceed a time limit in debug builds; ignore those). You do not need to run all 252 (that takes ~30 min); run every stable_pass test of the crates you touched and of the crates that depend on the changed code path (e.g. `cargo test --offline -p <crate> --lib`, and `cargo test --offline -p tests <filter>` for the integration crate), and make sure they all still pass with your change. If a stable_pass test fails with your change, pick a different change.
 
